@@ -185,7 +185,9 @@ def const_twin(d, did):
         lo, hi = INT_TYPES[d["ty"]]
         cand = sorted({v for m in marks for v in (m - 1, m, m + 1) if lo <= v <= hi} | {lo, hi, 0 if lo <= 0 else lo})
     else:
-        cand = sorted(set(marks) | {f_bits_of(d["ty"], 0.0), f_bits_of(d["ty"], 5.5)})
+        cand = sorted(set(marks) | {f_bits_of(d["ty"], 0.0), f_bits_of(d["ty"], 5.5)})[:5]
+        # NaN payloads and +inf also go through rustc's const evaluator
+        cand += [0x7fc00000, 0xffc00001, 0x7f800000] if d["ty"] == "f32" else [0x7ff8000000000000, 0xfff8000000000001, 0x7ff0000000000000]
     t["const_inputs"] = cand[:8]
     return t
 
